@@ -604,6 +604,54 @@ theorem C07_pow_d2 (r : ℝ) (hpos : ∀ x, 0 < a x) (ha : ∀ x, HasDerivAt a (
   refine (hp.fun_mul (h1.fun_add h2)).congr_deriv ?_
   simp only [cv, symsAt, evalR, pow_deriv2, pow_deriv, pow_potential]
   deriv_close
+/-! ### the guards of `pow.deriv` / `pow.deriv2`: a vanishing base under a constant whole exponent
+
+`(r - c)**2` is differentiable at `r = c`, but the general expression of the closure divides by the base.  Since fix `db9cc39` the closures return, when the base
+and the derivative(s) of the exponent are exactly zero, `b*a**(b-1)*a'` and `(b-1)*(b*a**(b-2)*a'*a') + b*a**(b-1)*a''` (the second with its first summand
+skipped when `b - 1 == 0`).  `pow_deriv_guards` / `pow_deriv2_guards` are those statements as regenerated from the source: which symbols are tested against zero, and
+the term returned.  For every whole exponent `n >= 1` the term returned IS the derivative there. -/
+
+/-- **guard of `pow.deriv`**: it tests the base and `deriv_b`; where the base vanishes and the exponent is the constant `n` (a whole number `>= 1`) the value returned
+    is the derivative of `a(x)**n` -/
+theorem C07_pow_d1_zero_base (r : ℝ) (n : ℕ) (hn : 1 ≤ n) (hb : ∀ x, b x = (n : ℝ)) (h0 : a r = 0) (ha : HasDerivAt a (da r) r) :
+    ∃ v, pow_deriv_guards = [([.sym 0, .sym 3], v)] ∧
+      HasDerivAt (cv a b da db d2a d2b pow_potential pow_deriv pow_potential) (cv a b da db d2a d2b pow_potential pow_deriv v r) r := by
+  refine ⟨_, rfl, ?_⟩
+  have hf : cv a b da db d2a d2b pow_potential pow_deriv pow_potential = fun x => a x ^ n := by
+    funext x; simp only [cv, symsAt, evalR, pow_potential]
+    rw [hb x, Real.rpow_natCast]
+  rw [hf]
+  refine (ha.pow n).congr_deriv ?_
+  simp only [cv, symsAt, evalR]
+  obtain ⟨m, rfl⟩ : ∃ m, n = m + 1 := ⟨n - 1, by omega⟩
+  have e : ((m + 1 : ℕ) : ℝ) - ((1 : ℕ) : ℝ) / ((1 : ℕ) : ℝ) = (m : ℝ) := by push_cast; ring
+  rw [hb r, e, Real.rpow_natCast]
+  simp only [Nat.add_sub_cancel]
+
+/-- **guard of `pow.deriv2`**: it tests the base, `deriv_b` and `deriv2_b`; where the base vanishes and the exponent is the constant `n >= 1` the value returned is
+    the derivative of the first derivative `n*a(x)**(n-1)*a'(x)` -/
+theorem C07_pow_d2_zero_base (r : ℝ) (n : ℕ) (hn : 1 ≤ n) (hb : ∀ x, b x = (n : ℝ)) (h0 : a r = 0) (ha : ∀ x, HasDerivAt a (da x) x)
+    (hda : HasDerivAt da (d2a r) r) :
+    ∃ v, pow_deriv2_guards = [([.sym 0, .sym 3, .sym 5], v)] ∧
+      HasDerivAt (fun x => (n : ℝ) * a x ^ (n - 1) * da x) (cv a b da db d2a d2b pow_potential pow_deriv v r) r := by
+  refine ⟨_, rfl, ?_⟩
+  refine ((((ha r).fun_pow (n - 1)).const_mul (n : ℝ)).fun_mul hda).congr_deriv ?_
+  simp only [cv, symsAt, evalR]
+  rw [hb r, h0]
+  obtain rfl | ⟨m, rfl⟩ : n = 1 ∨ ∃ m, n = m + 2 := by
+    rcases Nat.lt_or_ge n 2 with h | h
+    · left; omega
+    · right; exact ⟨n - 2, by omega⟩
+  · norm_num
+  · have e1 : ((m + 2 : ℕ) : ℝ) - ((1 : ℕ) : ℝ) / ((1 : ℕ) : ℝ) = ((m + 1 : ℕ) : ℝ) := by push_cast; ring
+    have e2 : ((m + 2 : ℕ) : ℝ) - ((2 : ℕ) : ℝ) / ((1 : ℕ) : ℝ) = (m : ℝ) := by push_cast; ring
+    rw [e1, e2, Real.rpow_natCast, Real.rpow_natCast]
+    have s1 : m + 2 - 1 = m + 1 := by omega
+    have s2 : m + 1 - 1 = m := by omega
+    rw [s1, s2]
+    push_cast
+    ring
+
 end combinators
 
 /-- `trans(f, as.constant X)`: `deriv(r) = f.deriv(r + X)` is the derivative of `r ↦ f(r + X)` (and likewise one order up) -/
